@@ -20,6 +20,25 @@ use tokio_tungstenite::tungstenite::Message as WsMessage;
 
 pub const HOUR: Duration = Duration::from_secs(3600);
 
+/// Which AsyncClient API `Cli::call` goes through: its own calls, the relay variant
+/// (`forward_message[_with_timeout]`, caller-chosen ids), or a mix (even tags forwarded).
+/// Thread-local: every scenario runs on a current-thread runtime.
+#[derive(Clone, Copy, Debug, PartialEq, Eq)]
+pub enum Api {
+    Call,
+    Forward,
+    Mixed,
+}
+thread_local! {
+    static API: std::cell::Cell<Api> = const { std::cell::Cell::new(Api::Call) };
+}
+pub fn set_api(a: Api) {
+    API.with(|c| c.set(a));
+}
+pub fn api() -> Api {
+    API.with(|c| c.get())
+}
+
 #[derive(Clone, Copy, Debug, PartialEq, Eq, PartialOrd, Ord)]
 pub enum Kind {
     Async,
@@ -50,6 +69,9 @@ fn body(tag: u64, pad: usize) -> Value {
 
 impl Cli {
     pub fn call(&self, tag: u64, timeout: Option<Duration>, pad: usize) -> BoxFut<Result<Value, RepeError>> {
+        if matches!(self, Cli::Async(_)) && (api() == Api::Forward || (api() == Api::Mixed && tag % 2 == 0)) {
+            return self.forward(tag, timeout, pad);
+        }
         let b = body(tag, pad);
         match self.clone() {
             Cli::Async(c) => Box::pin(async move {
@@ -64,6 +86,32 @@ impl Cli {
                     None => c.call_json("/p", &b).await,
                 }
             }),
+        }
+    }
+    /// The relay variant: `AsyncClient::forward_message[_with_timeout]` with a caller-chosen id
+    /// (ids from 1 << 40 upwards never collide with the client's own numbering). The WebSocket
+    /// client has no such API (falls back to `call`).
+    pub fn forward(&self, tag: u64, timeout: Option<Duration>, pad: usize) -> BoxFut<Result<Value, RepeError>> {
+        let b = body(tag, pad);
+        match self.clone() {
+            Cli::Async(c) => Box::pin(async move {
+                let msg = repe::Message::builder()
+                    .id((1u64 << 40) + tag)
+                    .query_str("/p")
+                    .query_format(repe::QueryFormat::JsonPointer)
+                    .body_json(&b)?
+                    .build();
+                let r = match timeout {
+                    Some(d) => c.forward_message_with_timeout(&msg, d).await?,
+                    None => c.forward_message(&msg).await?,
+                };
+                match r {
+                    Some(m) if m.header.ec != 0 => Err(RepeError::Io(std::io::Error::other(format!("error reply {}", m.header.ec)))),
+                    Some(m) => serde_json::from_slice(&m.body).map_err(RepeError::from),
+                    None => Ok(Value::Null),
+                }
+            }),
+            Cli::Ws(_) => Box::pin(async { Err(RepeError::Io(std::io::Error::other("the WebSocket client has no forward API"))) }),
         }
     }
     pub fn notify(&self, tag: u64, pad: usize) -> BoxFut<Result<(), RepeError>> {
